@@ -19,6 +19,7 @@ import (
 	"os"
 	"path/filepath"
 	"sort"
+	"strconv"
 	"strings"
 	"time"
 	"unicode/utf8"
@@ -30,6 +31,10 @@ import (
 )
 
 var prop string
+
+// skipModel: evaluate the direct oracles only (set by the guided search for most
+// candidates that show no new behaviour; the model comparison is the slower part)
+var skipModel bool
 
 func showArchive(a *txtar.Archive) string {
 	parts := []string{"A", common.Hex(a.Comment), fmt.Sprint(len(a.Files))}
@@ -424,6 +429,17 @@ var oracles14 = []string{"needsquote/exact", "quote/unquote-inverse", "quote/cle
 
 func main() {
 	f := common.ParseFlags()
+	// a binary built with -cover writes its counters at exit: give it a place in the scratch directory
+	if os.Getenv("GOCOVERDIR") == "" {
+		dir := f.Work
+		if dir == "" {
+			dir = os.TempDir()
+		}
+		dir = filepath.Join(dir, "txtar-gocoverdir")
+		if os.MkdirAll(dir, 0o755) == nil {
+			os.Setenv("GOCOVERDIR", dir)
+		}
+	}
 	prop = os.Getenv("VERIF_PROP")
 	if prop == "" {
 		prop = "C03"
@@ -493,6 +509,10 @@ func main() {
 		if seen%9973 == 1 {
 			res.Sample(map[string]any{"input": fmt.Sprintf("%q", x), "impl": p.impl, "source": tag})
 		}
+		if skipModel {
+			res.Count("oracles-only")
+			return
+		}
 		add(p)
 	}
 
@@ -555,6 +575,36 @@ func main() {
 	}
 	rn.flush(batch)
 	batch = batch[:0]
+
+	// 4a. coverage-guided search (thorough tier; VERIF_GUIDED_SECONDS overrides the duration)
+	secs := 0
+	if f.Tier == "thorough" {
+		secs = 180
+	}
+	if v, err := strconv.Atoi(os.Getenv("VERIF_GUIDED_SECONDS")); err == nil {
+		secs = v
+	}
+	if secs > 0 {
+		var seeds [][]byte
+		if f.Corpus != "" {
+			ents, _ := filepath.Glob(filepath.Join(f.Corpus, "*"))
+			sort.Strings(ents)
+			for _, e := range ents {
+				if b, err := os.ReadFile(e); err == nil {
+					seeds = append(seeds, b)
+				}
+			}
+		}
+		for _, l := range lineAtoms {
+			seeds = append(seeds, []byte(l), []byte(l+"\n"), []byte("x\n"+l+"\r\n"))
+		}
+		for i := 0; i < 200; i++ {
+			seeds = append(seeds, genText(r))
+		}
+		rn.guided(seeds, time.Duration(secs)*time.Second, one)
+		rn.flush(batch)
+		batch = batch[:0]
+	}
 
 	// 4b. rune level: the decoder, unicode.IsSpace, TrimSpace and utf8.Valid (utf8.go)
 	t0 := time.Now()
